@@ -182,6 +182,35 @@ func genAnyCall(r *detsim.Rand, types []int) Call {
 	return Call{Entry: EDump, Type: types[r.Intn(len(types))], Val: r.Intn(12), Shape: r.Intn(3)}
 }
 
+// coldWide turns a C11 plan into a first-use storm: a fresh process in which 3..6 clients each walk through many
+// struct types nobody has validated yet (every type twice in a row, under one or two tag names), one client stalled for
+// a long stretch. Whatever the library sets up lazily per type - and keeps for the life of the process - is set up
+// here by several clients at once.
+func coldWide(r *detsim.Rand, p *Plan) {
+	p.Cold = true
+	p.Young, p.FreshAt, p.Bystander = false, 0, 0
+	nc := 3 + r.Intn(4)
+	per := 40 + r.Intn(80)
+	p.Clients = nil
+	for c := 0; c < nc; c++ {
+		var calls []Call
+		for i := 0; i < per; i++ {
+			cl := Call{Entry: EValidate, Type: 1000 + r.Intn(NDyn), Val: r.Intn(12), Tag: []string{"", "v2", ""}[r.Intn(3)]}
+			calls = append(calls, cl)
+			if r.Chance(2, 3) {
+				calls = append(calls, cl)
+			}
+		}
+		p.Clients = append(p.Clients, calls)
+	}
+	est := nc * per * 30
+	p.Cfg.Policy = simsync.PolicyUniform
+	p.Cfg.StallTask = r.Intn(nc)
+	p.Cfg.StallFrom = r.Intn(est / 2)
+	p.Cfg.StallLen = est / 4
+	p.Cfg.PostYields = true
+}
+
 // genVarCall draws a Var call; fam >= 0 restricts the rule to one family of the rule-text swarm.
 func genVarCall(r *detsim.Rand, fam int) Call {
 	c := Call{Entry: EVar, Val: r.Intn(len(varVals)), Rule: r.Intn(len(varRules))}
@@ -511,5 +540,8 @@ func GenC11(r *detsim.Rand, tier string) *Plan {
 		p.Bystander = 6 + r.Intn(20)
 	}
 	freshSample(r, p, tier)
+	if !big && r.Chance(1, 12) {
+		coldWide(r, p)
+	}
 	return p
 }
